@@ -501,12 +501,12 @@ class KafkaCodec(object):
                     MinVersion => int16
                     MaxVersion => int16
         """
-        ((correlation_id, error_code), cur) = relative_unpack(">ii", data, 0)
-        data = data[2:]  # move past correlation_id and error_code
+        ((correlation_id, error_code, num_versions), cur) = relative_unpack(">ihi", data, 0)
 
         api_versions = []
 
-        for api_key, min_version, max_version in struct.iter_unpack(">hhh", data[cur:]):
+        for _i in range(num_versions):
+            ((api_key, min_version, max_version), cur) = relative_unpack(">hhh", data, cur)
             api_versions.append(ApiVersion(api_key, min_version, max_version))
 
         return ApiVersionResponse(error_code, api_versions)
